@@ -1247,10 +1247,28 @@ impl AndaDB {
         }
         value.validate_complexity()?;
 
-        {
-            self.inner.metadata.write().extensions.insert(key, value);
+        let previous = {
+            self.inner
+                .metadata
+                .write()
+                .extensions
+                .insert(key.clone(), value.clone())
+        };
+        if let Err(err) = self.flush_metadata(unix_ms()).await {
+            // The caller is told the value was not saved: do not keep it in
+            // memory either, or the next metadata write (any collection
+            // create/delete, `flush`, `close`) would persist it after all.
+            // Leave the entry alone if someone else replaced it meanwhile.
+            let mut meta = self.inner.metadata.write();
+            if meta.extensions.get(&key) == Some(&value) {
+                match previous {
+                    Some(previous) => meta.extensions.insert(key, previous),
+                    None => meta.extensions.remove(&key),
+                };
+            }
+            return Err(err);
         }
-        self.flush_metadata(unix_ms()).await
+        Ok(())
     }
 
     /// Sets a user-defined extension key-value pair by serializing the value from a generic type and immediately persists the change.
